@@ -157,6 +157,17 @@ def gen_cases(tier, seed):
                 spec['plan']['faults'] = [{'at': f't0/s3:GetObject:{8 * rng.randrange(0, 3)}#0', 'phase': 'body', 'bytes': rng.randrange(0, 8),
                                            'kind': 'connreset', 'tag': 'FAULT-w'}]
             cases.append(spec)
+    # executor / subscriber flavours: everything inline in the submitting thread (NonThreadedExecutor, what use_threads=False
+    # selects), no subscribers at all, and duck-typed subscribers offering only some callbacks
+    for s in cases:
+        if s.get('front_end') or s.get('mode') or s.get('yield'):
+            continue
+        r = rng.random()
+        if r < 0.12:
+            s['executor'] = 'nonthreaded'
+        for t in s['transfers']:
+            if 'subs' not in t and rng.random() < 0.12:
+                t['subs'] = rng.choice([None, [{'only': ['on_done']}], [{'only': ['on_progress']}]])
     rng.shuffle(cases)
     return cases
 
